@@ -150,29 +150,31 @@ def gen_cases(ctx):
         prog, text, gal = sg.generate(r, 1 + r.below(2))
         progs.append(prog)
         cases.append({"kind": "generated", "name": "gen-%d" % i, "text": text, "gallina": gal, "intent": "ok"})
-    # mutants: classes in rotation, each on the next program that offers a place for it
+    # mutants: classes in rotation; each class walks through the programs with its own pointer until one
+    # offers a place for the defect (programs without a match cannot take a match defect, ...)
     nm = len(sg.MUTATORS)
     made = {name: 0 for name, _ in sg.MUTATORS}
-    tried = {name: 0 for name, _ in sg.MUTATORS}
-    k, j, total = 0, 0, 0
-    budget = nmut * 6
-    while total < nmut and budget > 0:
-        budget -= 1
+    ptr = {name: 0 for name, _ in sg.MUTATORS}
+    k, total, idle = 0, 0, 0
+    while total < nmut and idle < nm:
         name = sg.MUTATORS[k % nm][0]
-        base = progs[j % len(progs)]
-        j += 1
-        tried[name] += 1
-        m = sg.mutate(base, rng.fork("mut%d:%d" % (k, j)), k % nm)
+        m = None
+        for _ in range(60):
+            base = progs[ptr[name] % len(progs)]
+            ptr[name] += 1
+            m = sg.mutate(base, rng.fork("mut%d:%d" % (k, ptr[name])), k % nm)
+            if m is not None:
+                break
+        k += 1
         if m is None:
-            if tried[name] - made[name] > 40 + made[name]:
-                k += 1          # this class finds no place: move on
+            idle += 1
             continue
+        idle = 0
         text, gal, code, line = m
         cases.append({"kind": "mutant", "name": "mut-%s-%d" % (name, made[name]), "text": text, "gallina": gal,
                       "intent": (code, line), "mutator": name})
         made[name] += 1
         total += 1
-        k += 1
     w = 0
     for i in range(nwild * 3):
         if w >= nwild:
